@@ -213,7 +213,8 @@ def run(rep, wd, tier, seed):
     rep.sample({'trace': traces[0]['_desc']})
     rep.sample({'trace': traces[-1]['_desc']})
     # one TLC per ~ equal share of traces
-    batches = core.split(traces, core.NCPU)
+    # (thorough: smaller batches - one JSON document per TLC start; documents near 90 MB are not parsed reliably)
+    batches = core.split(traces, core.NCPU * (8 if tier == 'thorough' else 1))
     vbsc.validate(rep, wd, batches, 'truncated')
     rep.traces = cuts   # every cut is one recorded execution of the real reader
     ipm_cuts(rep, wd, tier, seed)
